@@ -326,6 +326,22 @@ pub fn gen_hostile(a: &mut Arena, rng: &mut Rng) -> Option<Hostile> {
         }
         return Some(Hostile { layer: "L3p", label: "earlier-unauthorised-commit-after-valid-one".into(), ev });
     }
+    if rng.chance(30) {
+        // ---- MLS messages whose sender is not a member / other wire kinds (helped by the attacker,
+        // who wraps them under the current exporter secret) --------------------------------------------
+        let outsider = Keys::generate().public_key();
+        let k = rng.below(6);
+        let (label, bytes) = match k {
+            0 => ("external-commit-by-outsider", with_mdk!(a.w.clients[atk].mdk, x => adv::external_commit(x, &gid, &outsider))?),
+            1 => ("external-commit-claiming-a-members-identity", with_mdk!(a.w.clients[atk].mdk, x => adv::external_commit(x, &gid, &hpk))?),
+            2 => ("join-proposal-by-outsider", with_mdk!(a.w.clients[atk].mdk, x => adv::join_proposal(x, &gid, &outsider))?),
+            3 => ("group-info-as-payload", with_mdk!(a.w.clients[atk].mdk, x => adv::group_info_message(x, &gid))?),
+            4 => ("member-commit-as-public-message", with_mdk!(a.w.clients[atk].mdk, x => adv::public_message(x, &gid, true))?),
+            _ => ("member-proposal-as-public-message", with_mdk!(a.w.clients[atk].mdk, x => adv::public_message(x, &gid, false))?),
+        };
+        let ev = with_mdk!(a.w.clients[atk].mdk, x => adv::wrap_as(x, &gid, &bytes, ts))?;
+        return Some(Hostile { layer: "L3x", label: label.into(), ev });
+    }
     let k = rng.below(5);
     let (label, bytes) = match k {
         0 => ("non-admin-commit-remove", with_mdk!(a.w.clients[atk].mdk, x => adv::mls_commit(x, &gid, &adv::RawCommit { removes: vec![hpk], ..Default::default() }, false))?.0),
